@@ -1378,8 +1378,24 @@ func (w *Wallet) swapToSend(
 
 	splitForSendAmount := cashu.AmountSplit(amount)
 	var feesToReceive uint = 0
+	var splitForFees []uint64
 	if includeFees {
-		feesToReceive = feesForCount(len(splitForSendAmount)+1, activeSatKeyset)
+		// the receiver pays the input fee of every proof it gets, including the proofs that carry
+		// the fee itself: find a number n of fee proofs such that the fee of all proofs sent can
+		// be handed over in exactly n proofs
+		found := false
+		for n := 0; n <= 2*crypto.MAX_ORDER; n++ {
+			fee := feesForCount(len(splitForSendAmount)+n, activeSatKeyset)
+			if feeSplit, ok := splitAmountInto(uint64(fee), n); ok {
+				feesToReceive = fee
+				splitForFees = feeSplit
+				found = true
+				break
+			}
+		}
+		if !found {
+			return nil, errors.New("could not determine fees to include in proofs to send")
+		}
 		amount += uint64(feesToReceive)
 	}
 
@@ -1393,7 +1409,7 @@ func (w *Wallet) swapToSend(
 	var rs, changeRs []*secp256k1.PrivateKey
 	var counter, incrementCounterBy uint32
 
-	split := append(splitForSendAmount, cashu.AmountSplit(uint64(feesToReceive))...)
+	split := append(splitForSendAmount, splitForFees...)
 	slices.Sort(split)
 	// if no spendingCondition passed, create blinded messages from counter
 	if spendingCondition == nil {
@@ -1471,6 +1487,23 @@ func (w *Wallet) swapToSend(
 	}
 
 	return proofsToSend, nil
+}
+
+// splitAmountInto splits amount into exactly n powers of two.
+// It returns false if that is not possible.
+func splitAmountInto(amount uint64, n int) ([]uint64, bool) {
+	split := cashu.AmountSplit(amount)
+	if len(split) > n || uint64(n) > amount {
+		return nil, false
+	}
+	for len(split) < n {
+		// halve the biggest amount (there is one greater than 1 because n <= amount)
+		slices.Sort(split)
+		biggest := split[len(split)-1]
+		split[len(split)-1] = biggest / 2
+		split = append(split, biggest/2)
+	}
+	return split, true
 }
 
 // getProofsForAmount will return proofs from mint for the given amount.
